@@ -19,6 +19,7 @@ pub struct Env { pub id: u64 }
 pub struct Storage { pub env: Env }
 pub struct Instance { pub env: Env }
 pub struct Persistent { pub env: Env }
+pub struct Temporary { pub env: Env }
 pub struct Crypto { }
 impl Env {
     pub fn storage(&self) -> (r: Storage) ensures r.env == *self { Storage { env: Env { id: self.id } } }
@@ -27,11 +28,15 @@ impl Env {
 impl Storage {
     pub fn instance(&self) -> (r: Instance) ensures r.env == self.env { Instance { env: Env { id: self.env.id } } }
     pub fn persistent(&self) -> (r: Persistent) ensures r.env == self.env { Persistent { env: Env { id: self.env.id } } }
+    // a different storage class is a different (uninterpreted) map: a function that keeps a registry in
+    // temporary storage fails the contracts, which speak about instance / persistent entries
+    pub fn temporary(&self) -> (r: Temporary) ensures r.env == self.env { Temporary { env: Env { id: self.env.id } } }
 }
 // The storage content is an arbitrary (uninterpreted) function of the environment and the key:
 // one proof covers every pre-state.  `get` is a pure read.
 pub uninterp spec fn inst<K, V>(env: Env, k: K) -> Option<V>;
 pub uninterp spec fn pers<K, V>(env: Env, k: K) -> Option<V>;
+pub uninterp spec fn temp<K, V>(env: Env, k: K) -> Option<V>;
 impl Instance {
     #[verifier::external_body]
     pub fn get<K, V>(&self, key: &K) -> (r: Option<V>) ensures r == inst::<K, V>(self.env, *key) { unimplemented!() }
@@ -39,6 +44,10 @@ impl Instance {
 impl Persistent {
     #[verifier::external_body]
     pub fn get<K, V>(&self, key: &K) -> (r: Option<V>) ensures r == pers::<K, V>(self.env, *key) { unimplemented!() }
+}
+impl Temporary {
+    #[verifier::external_body]
+    pub fn get<K, V>(&self, key: &K) -> (r: Option<V>) ensures r == temp::<K, V>(self.env, *key) { unimplemented!() }
 }
 
 //@mode safety
